@@ -118,6 +118,21 @@ func genConc(c *genCtx) error {
 				var j jb
 				order := rng.Perm(len(inputs))
 				<-start
+				// first-use storm: every goroutine touches every entry point (and every value of the exported
+				// TokenType) at once, so that anything initialised lazily or cached on first use is hit concurrently
+				for t := 0; t < 256; t++ {
+					_ = rjson.TokenType(t).String()
+				}
+				for _, tiny := range []string{"1", `"\u00e9\ud83d\ude00"`, "[1e400]", `{"a":[1,{"b":}]}`, "1.00000000000000011102230246251565404236316680908203125", "nul", "-"} {
+					d := []byte(tiny)
+					writeDoc(po, gc.sws["parse"], &j, d, nil, gc.st)
+					runTreeWith(&rd, gc.sws["trees"], &j, d, nil, gc.st)
+					runInt(gc.sws["values"], &j, d, gc.st)
+					runFloat(gc.sws["floats"], &j, d, gc.st)
+					runStr(gc.sws["values"], &j, d, 1, gc.st)
+					runTok(gc.sws["values"], &j, d, gc.st)
+					runSan(gc.sws["values"], &j, d, nil, 1, gc.st)
+				}
 				for n, idx := range order {
 					in := inputs[idx]
 					if n%64 == 0 {
